@@ -582,8 +582,13 @@ acquire_stop(struct AcquireRuntime* self_)
         flush_reader(&video->filter.in, &video->filter.reader);
         flush_reader(&video->sink.in, &video->sink.reader);
 
-        // If the monitor has been initialized, flush it as well.
+        // If the monitor has been initialized, flush it as well. A region the
+        // client still has mapped is released first: the acquisition it
+        // belongs to is over, and reading through a mapped reader is a usage
+        // error that channel_read_map() records in the reader's status for
+        // good -- every later acquire_map_read() would fail.
         if (video->monitor.reader.id) {
+            channel_read_unmap(&video->sink.in, &video->monitor.reader, 0);
             flush_reader(&video->sink.in, &video->monitor.reader);
         }
     }
